@@ -58,6 +58,18 @@ Inductive instr :=
 | ILdStPair (opc : Z) (mode : pmode) (load : bool) (imm7 rt2 rn rt : Z)
 (* C6.2.131 LDAR, C6.2.132/133 LDARB/H, C6.2.158 LDLAR(B/H), C6.2.308 STLR(B/H), C6.2.304 STLLR(B/H) *)
 | ILdStOrd (size : Z) (load : bool) (o0 : bool) (rn rt : Z)
+(* the same encodings with a "should be one" field (Rs, Rt2) not all ones: CONSTRAINED UNPREDICTABLE (K1.2.x) *)
+| ILdStOrdU (size : Z) (load : bool) (o0 : bool) (rn rt : Z)
+(* C6.2.239 ORR (immediate)  [MOV (bitmask immediate) is its alias] *)
+| IOrrImm (sf : bool) (n immr imms rn rd : Z)
+(* C6.2.229 NOP (HINT #0), C6.2.247-249 PRFM (immediate | literal | register), C6.2.250 PRFUM: no architectural state change *)
+| INop
+(* SIMD&FP register transfers: C7.2.191 LDR (immediate, SIMD&FP), C7.2.193 LDR (register, SIMD&FP), C7.2.194 LDUR,
+   C7.2.331-333 STR / STUR (SIMD&FP); [scale] = log2 of the access size in bytes (0..4 : B H S D Q) *)
+| IVLdStImm (scale : Z) (load : bool) (mode : wbmode) (scaled : bool) (imm rn rt : Z)
+| IVLdStReg (scale : Z) (load : bool) (rm option : Z) (s : bool) (rn rt : Z)
+(* C7.2.190 LDP / C7.2.189 LDNP / C7.2.330 STP / C7.2.329 STNP (SIMD&FP): opc = 0 1 2 : S D Q *)
+| IVLdStPair (opc : Z) (mode : pmode) (load : bool) (imm7 rt2 rn rt : Z)
 (* C6.2.26 B, C6.2.34 BL *)
 | IBImm (link : bool) (imm26 : Z)
 (* C6.2.37 BR (opc=0), C6.2.35 BLR (opc=1), C6.2.254 RET (opc=2) *)
@@ -76,6 +88,34 @@ Definition decode_ldst_opc_ok (size opc : Z) : bool :=
      opc = 11: sign-extending load to 32 bits, size in {00, 01} (10, 11: UNDEFINED) *)
   if opc <? 2 then true else if opc =? 2 then size <? 3 else size <? 2.
 
+(* DecodeBitMasks (J1 aarch64/functions/bitmasks), immediate = TRUE, returning wmask only *)
+Definition bm_len (n imms : Z) : Z := Z.log2 (n * 64 + (63 - imms)).
+Definition bitmask_valid (sf : bool) (n imms : Z) : bool :=
+  let v := n * 64 + (63 - imms) in
+  if negb sf && (n =? 1) then false                           (* sf = 0 && N = 1 : UNDEFINED *)
+  else if v <? 2 then false                                   (* len < 1 : UNDEFINED *)
+  else let levels := 2 ^ bm_len n imms - 1 in negb (Z.land imms levels =? levels).
+Definition decode_bit_mask (datasize n immr imms : Z) : Z :=
+  let len := bm_len n imms in
+  let levels := 2 ^ len - 1 in
+  let S := Z.land imms levels in
+  let R := Z.land immr levels in
+  let esize := 2 ^ len in
+  let welem := 2 ^ (S + 1) - 1 in
+  let elem := (welem / 2 ^ R + welem * 2 ^ (esize - R)) mod 2 ^ esize in      (* ROR(welem, R) *)
+  (elem * ((2 ^ datasize - 1) / (2 ^ esize - 1))) mod 2 ^ datasize.           (* Replicate *)
+(* MoveWidePreferred (J1 aarch64/instrs/integer/bitmasks) as the decoder the lifter uses (bad64 0.6) implements it:
+   "for MOVN must contain no more than 16 zeros" is tested as S >= width - 17 (fitted on all 5 000 valid
+   (sf, N, imms, immr) with Rn = ZR, see notes/C03.md).  Only the CHOICE OF MNEMONIC (MOV vs ORR) depends on it:
+   it is used by the mirror (A64Lift.operands_of), never by a64step. *)
+Definition move_wide_preferred (sf : bool) (n imms immr : Z) : bool :=
+  let width := if sf then 64 else 32 in
+  if sf && negb (n =? 1) then false
+  else if negb sf && negb ((n =? 0) && (imms <? 32)) then false
+  else if imms <? 16 then ((- immr) mod 16) <=? (15 - imms)
+  else if width - 17 <=? imms then (immr mod 16) <=? (imms - (width - 17))
+  else false.
+
 Definition decode (w : Z) : option instr :=
   let sf := bitb w 31 in
   let rd := bits w 4 0 in let rn := bits w 9 5 in let rm := bits w 20 16 in
@@ -93,6 +133,10 @@ Definition decode (w : Z) : option instr :=
     let imm6 := bits w 15 10 in
     if negb sf && (32 <=? imm6) then None
     else Some (IOrrShift sf (decode_shift (bits w 23 22)) rm imm6 rn rd)
+  else if (bits w 28 23 =? 36) && (bits w 30 29 =? 1) then    (* 100100, opc = 01 : ORR (immediate) *)
+    if bitmask_valid sf (bits w 22 22) (bits w 15 10) then Some (IOrrImm sf (bits w 22 22) (bits w 21 16) (bits w 15 10) rn rd)
+    else None
+  else if w =? 3573751839 then Some INop                      (* d503201f : NOP *)
   else if bits w 28 23 =? 37 then                             (* 100101 : move wide (immediate) *)
     let opc := bits w 30 29 in let hw := bits w 22 21 in
     if (opc =? 1) || (negb sf && (2 <=? hw)) then None
@@ -108,6 +152,34 @@ Definition decode (w : Z) : option instr :=
   else if (bits w 31 25 =? 107) && (bits w 24 21 <? 3) && (bits w 20 16 =? 31)
           && (bits w 15 10 =? 0) && (bits w 4 0 =? 0) then    (* 1101011 0 0xx 11111 000000 Rn 00000 : BR / BLR / RET *)
     Some (IBReg (bits w 24 21) rn)
+  else if (bits w 29 27 =? 5) && bitb w 26 then               (* xx 101 1 : load/store pair, SIMD&FP *)
+    let opc := bits w 31 30 in let mode := bits w 25 23 in let load := bitb w 22 in
+    if opc =? 3 then None
+    else if mode =? 0 then Some (IVLdStPair opc PNoAlloc load (bits w 21 15) (bits w 14 10) rn rd)
+    else if mode =? 1 then Some (IVLdStPair opc PPost load (bits w 21 15) (bits w 14 10) rn rd)
+    else if mode =? 2 then Some (IVLdStPair opc POffset load (bits w 21 15) (bits w 14 10) rn rd)
+    else if mode =? 3 then Some (IVLdStPair opc PPre load (bits w 21 15) (bits w 14 10) rn rd)
+    else None
+  else if (bits w 29 27 =? 7) && bitb w 26 then               (* xx 111 1 : load/store register, SIMD&FP *)
+    let size := bits w 31 30 in let opc := bits w 23 22 in
+    (* opc<1> = 1 : the 128-bit forms, size must be 00; otherwise scale = size *)
+    if (2 <=? opc) && negb (size =? 0) then None
+    else
+      let scale := if 2 <=? opc then 4 else size in
+      let load := bitb w 22 in
+      if bits w 25 24 =? 1 then Some (IVLdStImm scale load WOffset true (bits w 21 10) rn rd)
+      else if bits w 25 24 =? 0 then
+        if negb (bitb w 21) then
+          let k := bits w 11 10 in
+          if k =? 0 then Some (IVLdStImm scale load WOffset false (bits w 20 12) rn rd)
+          else if k =? 1 then Some (IVLdStImm scale load WPost false (bits w 20 12) rn rd)
+          else if k =? 3 then Some (IVLdStImm scale load WPre false (bits w 20 12) rn rd)
+          else None
+        else
+          if (bits w 11 10 =? 2) && bitb w 14
+          then Some (IVLdStReg scale load rm (bits w 15 13) (bitb w 12) rn rd)
+          else None
+      else None
   else if (bits w 29 27 =? 5) && negb (bitb w 26) then        (* x0 101 0 : load/store pair, V = 0 *)
     let opc := bits w 31 30 in let mode := bits w 25 23 in let load := bitb w 22 in
     if (opc =? 3) || ((opc =? 1) && negb load) then None      (* UNDEFINED / STGP *)
@@ -118,7 +190,12 @@ Definition decode (w : Z) : option instr :=
     else None
   else if (bits w 29 27 =? 7) && negb (bitb w 26) then        (* xx 111 0 : load/store register, V = 0 *)
     let size := bits w 31 30 in let opc := bits w 23 22 in
-    if negb (decode_ldst_opc_ok size opc) then None
+    if (size =? 3) && (opc =? 2) then                         (* PRFM (immediate | register), PRFUM *)
+      if bits w 25 24 =? 1 then Some INop
+      else if (bits w 25 24 =? 0) && negb (bitb w 21) && (bits w 11 10 =? 0) then Some INop
+      else if (bits w 25 24 =? 0) && bitb w 21 && (bits w 11 10 =? 2) && bitb w 14 then Some INop
+      else None
+    else if negb (decode_ldst_opc_ok size opc) then None
     else if bits w 25 24 =? 1 then Some (ILdStImm size opc WOffset true (bits w 21 10) rn rd)
     else if bits w 25 24 =? 0 then
       if negb (bitb w 21) then
@@ -133,15 +210,20 @@ Definition decode (w : Z) : option instr :=
         else None
     else None
   else if (bits w 29 27 =? 3) && negb (bitb w 26) && (bits w 25 24 =? 0) then  (* xx 011 0 00 : load register (literal) *)
-    if bits w 31 30 =? 3 then None else Some (ILdLit (bits w 31 30) (bits w 23 5) rd)
-  else if (bits w 29 24 =? 8) && bitb w 23 && negb (bitb w 21)
-          && (bits w 20 16 =? 31) && (bits w 14 10 =? 31) then   (* xx 001000 1 L 0 11111 o0 11111 : LDAR/STLR/LDLAR/STLLR *)
-    Some (ILdStOrd (bits w 31 30) (bitb w 22) (bitb w 15) rn rd)
+    if bits w 31 30 =? 3 then Some INop                       (* PRFM (literal) *)
+    else Some (ILdLit (bits w 31 30) (bits w 23 5) rd)
+  else if (bits w 29 24 =? 8) && bitb w 23 && negb (bitb w 21) then   (* xx 001000 1 L 0 (Rs) o0 (Rt2) : LDAR/STLR/LDLAR/STLLR *)
+    if (bits w 20 16 =? 31) && (bits w 14 10 =? 31)
+    then Some (ILdStOrd (bits w 31 30) (bitb w 22) (bitb w 15) rn rd)
+    else Some (ILdStOrdU (bits w 31 30) (bitb w 22) (bitb w 15) rn rd)
+  else if (bits w 29 24 =? 25) && (bits w 23 21 =? 0) && (bits w 11 10 =? 0) then   (* xx 011001 00 0 imm9 00 : STLUR(B/H): as STUR *)
+    Some (ILdStImm (bits w 31 30) 0 WOffset false (bits w 20 12) rn rd)
   else None.
 
 (* ------------------------------------------------------------------ machine state *)
 Record a64state := mkA {
   xr : Z -> Z;            (* X0..X30 *)
+  vr : Z -> Z;            (* V0..V31, 128-bit SIMD&FP registers *)
   asp : Z;                (* SP *)
   fN : bool; fZ : bool; fC : bool; fV : bool;
   amem : Z -> Z;          (* byte memory *)
@@ -157,16 +239,19 @@ Definition SPorX (s : a64state) (n : Z) : Z := if n =? 31 then asp s else xr s n
 Definition upd (f : Z -> Z) (k v : Z) : Z -> Z := fun i => if i =? k then v else f i.
 (* X[d] = v : a write to register 31 is discarded; a 32-bit write zero-extends (v already < 2^32) *)
 Definition setX (s : a64state) (d v : Z) : a64state :=
-  if d =? 31 then s else mkA (upd (xr s) d v) (asp s) (fN s) (fZ s) (fC s) (fV s) (amem s) (apc s) (abig s).
+  if d =? 31 then s else mkA (upd (xr s) d v) (vr s) (asp s) (fN s) (fZ s) (fC s) (fV s) (amem s) (apc s) (abig s).
 Definition setSP (s : a64state) (v : Z) : a64state :=
-  mkA (xr s) v (fN s) (fZ s) (fC s) (fV s) (amem s) (apc s) (abig s).
+  mkA (xr s) (vr s) v (fN s) (fZ s) (fC s) (fV s) (amem s) (apc s) (abig s).
 Definition setSPorX (s : a64state) (d v : Z) : a64state := if d =? 31 then setSP s v else setX s d v.
 Definition setNZCV (s : a64state) (n z c v : bool) : a64state :=
-  mkA (xr s) (asp s) n z c v (amem s) (apc s) (abig s).
+  mkA (xr s) (vr s) (asp s) n z c v (amem s) (apc s) (abig s).
 Definition setMem (s : a64state) (m : Z -> Z) : a64state :=
-  mkA (xr s) (asp s) (fN s) (fZ s) (fC s) (fV s) m (apc s) (abig s).
+  mkA (xr s) (vr s) (asp s) (fN s) (fZ s) (fC s) (fV s) m (apc s) (abig s).
 Definition setPC (s : a64state) (a : Z) : a64state :=
-  mkA (xr s) (asp s) (fN s) (fZ s) (fC s) (fV s) (amem s) (a mod 2 ^ 64) (abig s).
+  mkA (xr s) (vr s) (asp s) (fN s) (fZ s) (fC s) (fV s) (amem s) (a mod 2 ^ 64) (abig s).
+(* V[t] = v : the whole 128-bit register (a narrower scalar write has already been zero-extended) *)
+Definition setV (s : a64state) (t v : Z) : a64state :=
+  mkA (xr s) (upd (vr s) t v) (asp s) (fN s) (fZ s) (fC s) (fV s) (amem s) (apc s) (abig s).
 Definition nextPC (s : a64state) : a64state := setPC s (apc s + 4).
 
 (* ------------------------------------------------------------------ shared pseudocode *)
@@ -271,6 +356,16 @@ Definition ldst_access (s : a64state) (size opc t address : Z) : option a64state
     end
   else mem_wr s address nbytes (X s t mod 2 ^ (8 * 2 ^ size)).
 
+(* one SIMD&FP register transfer of 2^scale bytes: a load writes the zero-extended datum to the whole V register *)
+Definition v_access (s : a64state) (scale : Z) (load : bool) (t address : Z) : option a64state :=
+  let nbytes := Z.to_nat (2 ^ scale) in
+  if load then
+    match mem_rd s address nbytes with
+    | None => None
+    | Some data => Some (setV s t data)
+    end
+  else mem_wr s address nbytes (vr s t mod 2 ^ (8 * 2 ^ scale)).
+
 Definition a64step (i : instr) (s : a64state) : a64res :=
   match i with
   | IAddSubImm sf sub setflags sh imm12 rn rd =>
@@ -372,6 +467,46 @@ Definition a64step (i : instr) (s : a64state) : a64res :=
       | None => Undef
       | Some s1 => Done (nextPC s1)
       end
+  | IVLdStImm scale load mode scaled imm rn rt =>
+      let wback := match mode with WOffset => false | _ => true end in
+      let postindex := match mode with WPost => true | _ => false end in
+      let offset := if scaled then imm * 2 ^ scale else sext_imm 9 imm in
+      let base := SPorX s rn in
+      let address := if postindex then base else wrap64 (base + offset) in
+      match v_access s scale load rt address with
+      | None => Undef
+      | Some s1 => Done (nextPC (if wback then setSPorX s1 rn (wrap64 (base + offset)) else s1))
+      end
+  | IVLdStReg scale load rm option sbit rn rt =>
+      let offset := ExtendReg s 64 rm (decode_ext option) (if sbit then scale else 0) in
+      match v_access s scale load rt (wrap64 (SPorX s rn + offset)) with
+      | None => Undef
+      | Some s1 => Done (nextPC s1)
+      end
+  | IVLdStPair opc mode load imm7 rt2 rn rt =>
+      let wback := match mode with PPost | PPre => true | _ => false end in
+      let postindex := match mode with PPost => true | _ => false end in
+      let scale := 2 + opc in
+      let dbytes := 2 ^ scale in
+      let offset := sext_imm 7 imm7 * dbytes in
+      if load && (rt =? rt2) then Undef                                        (* CONSTRAINED UNPREDICTABLE *)
+      else
+        let base := SPorX s rn in
+        let address := if postindex then base else wrap64 (base + offset) in
+        match v_access s scale load rt address with
+        | None => Undef
+        | Some s1 =>
+            match v_access s1 scale load rt2 (address + dbytes) with
+            | None => Undef
+            | Some s2 => Done (nextPC (if wback then setSPorX s2 rn (wrap64 (base + offset)) else s2))
+            end
+        end
+  | ILdStOrdU _ _ _ _ _ => Undef
+  | IOrrImm sf n immr imms rn rd =>
+      (* result = operand1 OR imm; if d == 31 then SP[] = result else X[d] = result *)
+      let N := dsize sf in
+      Done (nextPC (setSPorX s rd (Z.lor (Xw s rn N) (decode_bit_mask N n immr imms))))
+  | INop => Done (nextPC s)
   | IBImm link imm26 =>
       (* if branch_type == BranchType_DIRCALL then X[30] = PC[] + 4;  BranchTo(PC[] + offset) *)
       let s1 := if link then setX s 30 (wrap64 (apc s + 4)) else s in
@@ -416,5 +551,16 @@ Definition footprint (i : instr) (s : a64state) : list Z :=
       let address := match mode with PPost => SPorX s rn | _ => wrap64 (SPorX s rn + offset) end in
       addr_range address (Z.to_nat (2 * dbytes))
   | ILdStOrd size _ _ rn _ => addr_range (SPorX s rn) (Z.to_nat (2 ^ size))
+  | IVLdStImm scale _ mode scaled imm rn _ =>
+      let offset := if scaled then imm * 2 ^ scale else sext_imm 9 imm in
+      let address := match mode with WPost => SPorX s rn | _ => wrap64 (SPorX s rn + offset) end in
+      addr_range address (Z.to_nat (2 ^ scale))
+  | IVLdStReg scale _ rm option sbit rn _ =>
+      addr_range (wrap64 (SPorX s rn + ExtendReg s 64 rm (decode_ext option) (if sbit then scale else 0))) (Z.to_nat (2 ^ scale))
+  | IVLdStPair opc mode _ imm7 _ rn _ =>
+      let dbytes := 2 ^ (2 + opc) in
+      let offset := sext_imm 7 imm7 * dbytes in
+      let address := match mode with PPost => SPorX s rn | _ => wrap64 (SPorX s rn + offset) end in
+      addr_range address (Z.to_nat (2 * dbytes))
   | _ => []
   end.
